@@ -458,3 +458,98 @@ Proof.
     cbn [repeat bo_run seq map]. f_equal. apply (IH (S j)). }
   exact (H O).
 Qed.
+
+(* ------------------------------------------------------------ enabledness / progress of the sender *)
+Lemma covers_universe c need : covers c need (universe c) = true.
+Proof.
+  unfold covers. apply forallb_forall. intros k Hk. destruct (need k); [|reflexivity].
+  cbn [implb]. apply mem_In. assumption.
+Qed.
+
+(* the sender steps: a flush that writes all its messages *)
+Definition is_full_flush (e : sev) : Prop :=
+  match e with EFirstFlush _ None | EDiffFlush _ _ None => True | _ => False end.
+
+(* From EVERY reachable state in which the connection is up on both sides (the
+   peer is reading), at most ONE sender step -- a complete flush, enabled right
+   there, in the iteration order [universe c] -- leads to a stable state, without
+   any new Set; the desired set is unchanged.  (What is NOT proved: that the
+   scheduler runs the sender goroutine and that TCP lets the write complete.) *)
+Theorem sender_progress c w id : Inv c w ->
+  conn (ws w) = Some id -> up (wp w) = Some id ->
+  exists es' w', (length es' <= 1)%nat /\ Forall is_full_flush es' /\
+                 run c w es' = Some w' /\ stable w' /\ desired w' = desired w.
+Proof.
+  intros HI Hc Hu. pose proof HI as [_ _ _ Hcl _].
+  assert (Hclosed : closed (ws w) = false).
+  { destruct (closed (ws w)) eqn:E; [|reflexivity]. rewrite (Hcl eq_refl) in Hc. discriminate. }
+  destruct w as [s p d]. cbn [ws wp desired] in *.
+  destruct (synced s) eqn:Es.
+  - destruct (pending s) as [new|] eqn:Ep.
+    + exists [EDiffFlush (universe c) (universe c) None]. eexists. split; [cbn; auto|].
+      split; [repeat constructor|].
+      cbn [run step ws wp desired]. rewrite Hc, Ep, Hclosed, Es. cbn [orb negb].
+      rewrite !covers_universe. cbn [andb negb].
+      split; [reflexivity|]. split; [|reflexivity].
+      exists id. cbn. rewrite deliver_up. auto.
+    + exists []. eexists. split; [cbn; auto|]. split; [constructor|]. split; [reflexivity|].
+      split; [|reflexivity]. exists id. cbn. auto.
+  - exists [EFirstFlush (universe c) None]. eexists. split; [cbn; auto|].
+    split; [repeat constructor|].
+    cbn [run step ws wp desired]. rewrite Hc, Hclosed, Es. cbn [orb].
+    rewrite covers_universe. cbn [negb].
+    split; [reflexivity|]. split; [|reflexivity].
+    exists id. cbn. rewrite deliver_up. auto.
+Qed.
+
+Theorem sender_progress_reachable c es w id : run c world0 es = Some w ->
+  conn (ws w) = Some id -> up (wp w) = Some id ->
+  exists es' w', (length es' <= 1)%nat /\ Forall is_full_flush es' /\
+                 run c w es' = Some w' /\ stable w' /\
+                 forall k, In k (universe c) -> ptable (wp w') k = last_set es empty k.
+Proof.
+  intros Hr Hc Hu. pose proof (run_inv c es _ _ (inv0 c) Hr) as HI.
+  destruct (sender_progress c w id HI Hc Hu) as (es' & w' & Hl & Hf & Hr' & Hs & Hd).
+  exists es', w'. repeat split; try assumption.
+  intros k Hk. destruct Hs as (id' & Hc' & Hu' & Hs' & Hp').
+  pose proof (run_inv c es' _ _ HI Hr') as [Hdes Hsy _ _ _].
+  rewrite Hp' in Hdes. rewrite (Hsy id' Hc' Hu' Hs' k Hk), Hdes, Hd.
+  rewrite (run_desired c es _ _ Hr). reflexivity.
+Qed.
+
+(* ------------------------------------------------------------ justification with the table pinned down *)
+(* the table a message is judged against: for a diff flush what the peer holds
+   (advertised), for the first flush of a connection the empty table *)
+Definition adv_of (w : world) (e : sev) : table :=
+  match e with EDiffFlush _ _ _ => advertised (ws w) | _ => empty end.
+Definition new_of (w : world) : table :=
+  match pending (ws w) with Some p => p | None => advertised (ws w) end.
+
+Theorem emitted_justified_strong c w e m : In m (emitted c w e) -> justified (adv_of w e) (new_of w) m.
+Proof.
+  unfold emitted, adv_of, new_of. destruct e; try contradiction.
+  - intros H. eapply first_msgs_justified. destruct sent; [eapply In_firstn; exact H | exact H].
+  - destruct (pending (ws w)) as [new|]; [|contradiction]. intros H.
+    eapply diff_msgs_justified. destruct sent; [eapply In_firstn; exact H | exact H].
+Qed.
+
+(* in a reachable state the set being moved to IS the last Set: an emitted
+   UPDATE k v carries the attributes last requested for k; a withdrawn k is
+   absent from the last Set and (diff flush) present in what the peer was sent *)
+Theorem emitted_is_last_set c es w e m : run c world0 es = Some w -> In m (emitted c w e) ->
+  match m with
+  | MUpd k v => last_set es empty k = Some v
+  | MWdr ks => ks <> [] /\ forall k, In k ks -> last_set es empty k = None /\ adv_of w e k <> None
+  end.
+Proof.
+  intros Hr Hin. pose proof (emitted_justified_strong c w e m Hin) as Hj.
+  pose proof (run_inv c es _ _ (inv0 c) Hr) as [Hd _ _ _ _].
+  assert (Hnew : forall k, new_of w k = last_set es empty k).
+  { intros k. pose proof (run_desired c es _ _ Hr) as Hdes. change (desired world0) with empty in Hdes.
+    rewrite <- Hdes. unfold new_of.
+    destruct (pending (ws w)); apply Hd. }
+  destruct m as [k v | ks]; cbn [justified] in Hj.
+  - rewrite <- Hnew. exact Hj.
+  - destruct Hj as [Hne Hall]. split; [assumption|]. intros k Hk. destruct (Hall k Hk) as [H1 H2].
+    split; [rewrite <- Hnew; exact H1 | exact H2].
+Qed.
